@@ -69,4 +69,5 @@ run C28 && mut C28 protocol/lavasession/consumer_types.go '	cswp.Lock.Lock()
 	cswp.Lock.Lock()
 	defer cswp.Lock.Unlock()'
 run C40 && mut C40 x/pairing/keeper/scores/score.go 'if randomValue <= newScoreSum.RoundInt64() {' 'if randomValue < newScoreSum.RoundInt64() {'
+run C16 && mut C16 x/epochstorage/keeper/fixated_params.go '	} else if latestParamChange >= prevEpochStart {' '	} else if latestParamChange > prevEpochStart {'
 exit 0
